@@ -8,6 +8,8 @@ import (
 	"go/types"
 	"sort"
 	"strings"
+
+	"golang.org/x/tools/go/ssa"
 )
 
 func init() {
@@ -406,105 +408,205 @@ func runC13CaseArg(c *Ctx) {
 
 func runC13Dup(c *Ctx) {
 	p := c.P
-	info := p.info()
-	var decl *ast.FuncDecl
-	p.FuncDecls(func(_ *ast.File, d *ast.FuncDecl) {
-		if DeclName(info, d) == "(*parser).parseMapping" {
-			decl = d
-		}
-	})
-	if decl == nil {
+	fn := p.Method("parser", "parseMapping")
+	if fn == nil {
 		c.anchorMissing("(*parser).parseMapping")
 		return
 	}
-	// the loop over n.Content
-	var loop *ast.ForStmt
-	ast.Inspect(decl.Body, func(n ast.Node) bool {
-		if f, ok := n.(*ast.ForStmt); ok && loop == nil {
-			loop = f
+	// the parameter that says whether keys are case-sensitive: the last bool parameter (callers pass constants, C13.CASEARG)
+	var cs *ssa.Parameter
+	for _, q := range fn.Params {
+		if b, ok := q.Type().Underlying().(*types.Basic); ok && b.Kind() == types.Bool {
+			cs = q
 		}
-		return loop == nil
+	}
+	// the membership test on the set of keys seen so far: a comma-ok lookup in a map made in this function, inside a loop
+	var lookup *ssa.Lookup
+	eachInstr(fn, func(b *ssa.BasicBlock, _ int, in ssa.Instruction) {
+		if lk, ok := in.(*ssa.Lookup); ok && lk.CommaOk && blockInCycle(b) {
+			if _, made := lk.X.(*ssa.MakeMap); made {
+				lookup = lk
+			}
+		}
 	})
-	if loop == nil {
-		c.anchorMissing("loop of (*parser).parseMapping")
+	if lookup == nil || cs == nil {
+		c.bad("(*parser).parseMapping|duplicate test", fn.Pos(), "no membership test on a set of seen keys in the key loop")
 		return
 	}
-	params := decl.Type.Params.List
-	csName := ""
-	if len(params) > 0 {
-		last := params[len(params)-1]
-		csName = last.Names[len(last.Names)-1].Name
-	}
-	var lookup *ast.IfStmt // if pos, ok := keys[id]; ok { ... continue }
-	var fold *ast.IfStmt   // if !caseSensitive { id = strings.ToLower(id) }
-	var appendPos, lookupPos, foldPos token.Pos
-	for _, st := range loop.Body.List {
-		switch s := st.(type) {
-		case *ast.IfStmt:
-			if as, ok := s.Init.(*ast.AssignStmt); ok && len(as.Rhs) == 1 {
-				if ix, ok := as.Rhs[0].(*ast.IndexExpr); ok {
-					if _, isMap := info.TypeOf(ix.X).Underlying().(*types.Map); isMap {
-						lookup = s
-						lookupPos = s.Pos()
-					}
-				}
-			}
-			if un, ok := s.Cond.(*ast.UnaryExpr); ok && un.Op == token.NOT && exprStr(un.X) == csName {
-				lower := false
-				ast.Inspect(s.Body, func(x ast.Node) bool {
-					if call, ok := x.(*ast.CallExpr); ok {
-						if fn := calleeObj(info, call); fn != nil && fn.FullName() == "strings.ToLower" {
-							lower = true
-						}
-					}
-					return true
-				})
-				if lower && fold == nil {
-					fold = s
-					foldPos = s.Pos()
-				}
-			}
-		case *ast.AssignStmt:
-			if len(s.Rhs) == 1 {
-				if call, ok := s.Rhs[0].(*ast.CallExpr); ok {
-					if id, ok := call.Fun.(*ast.Ident); ok && id.Name == "append" {
-						appendPos = s.Pos()
-					}
+	// its outcome decides a branch: the branch for a key already seen reports and goes on with the next key
+	var okIf *ssa.If
+	for _, ref := range *lookup.Referrers() {
+		if ex, isEx := ref.(*ssa.Extract); isEx && ex.Index == 1 {
+			for _, r2 := range *ex.Referrers() {
+				if ifi, isIf := r2.(*ssa.If); isIf {
+					okIf = ifi
 				}
 			}
 		}
 	}
-	if lookup == nil {
-		c.bad("(*parser).parseMapping|duplicate test", loop.Pos(), "no membership test on the seen-keys map in the key loop")
+	var store *ssa.MapUpdate
+	var app *ssa.Call
+	eachInstr(fn, func(_ *ssa.BasicBlock, _ int, in ssa.Instruction) {
+		switch x := in.(type) {
+		case *ssa.MapUpdate:
+			if x.Map == lookup.X {
+				store = x
+			}
+		case *ssa.Call:
+			if bi, ok := x.Call.Value.(*ssa.Builtin); ok && bi.Name() == "append" && strings.Contains(typeStr(x.Type()), "workflowKeyVal") {
+				app = x
+			}
+		}
+	})
+	if okIf == nil {
+		c.bad("(*parser).parseMapping|duplicate test", lookup.Pos(), "the result of the membership test does not decide a branch")
 	} else {
-		reports, conts := false, false
-		ast.Inspect(lookup.Body, func(x ast.Node) bool {
-			if call, ok := x.(*ast.CallExpr); ok {
-				if fn := calleeObj(info, call); fn != nil && strings.HasPrefix(shortFuncName(fn), "(*parser).error") {
-					reports = true
+		seen := okIf.Block().Succs[0]
+		reports := false
+		region := reachableBlocks([]*ssa.BasicBlock{seen}, map[*ssa.BasicBlock]bool{lookup.Block(): true})
+		for b := range region {
+			if !(b == seen || seen.Dominates(b)) {
+				continue
+			}
+			for _, in := range b.Instrs {
+				if call, ok := in.(*ssa.Call); ok {
+					if g := staticCallee(&call.Call); g != nil && strings.HasPrefix(FuncName(g), "(*parser).error") {
+						reports = true
+					}
 				}
 			}
-			if b, ok := x.(*ast.BranchStmt); ok && b.Tok == token.CONTINUE {
-				conts = true
+		}
+		skips := true
+		for _, in := range []ssa.Instruction{store, app} {
+			if in == nil {
+				continue
 			}
-			return true
-		})
-		if reports && conts && exprStr(lookup.Cond) == "ok" {
+			if in.Block() == seen || seen.Dominates(in.Block()) {
+				skips = false // stored on the already-seen branch
+			}
+		}
+		if reports && skips {
 			c.ok("(*parser).parseMapping|duplicate test", lookup.Pos(), "a key already seen is reported and skipped")
 		} else {
 			c.bad("(*parser).parseMapping|duplicate test", lookup.Pos(), "the branch for an already seen key does not report it and continue")
 		}
-		if appendPos.IsValid() && appendPos > lookupPos {
-			c.ok("(*parser).parseMapping|store after test", appendPos, "the entry is appended only after the duplicate test")
+		notSeen := okIf.Block().Succs[1]
+		if app != nil && store != nil && (app.Block() == notSeen || notSeen.Dominates(app.Block())) && (store.Block() == notSeen || notSeen.Dominates(store.Block())) {
+			c.ok("(*parser).parseMapping|store after test", app.Pos(), "the entry is appended and remembered only after the duplicate test said it is new")
 		} else {
-			c.bad("(*parser).parseMapping|store after test", loop.Pos(), "the entry is stored before (or without) the duplicate test")
+			c.bad("(*parser).parseMapping|store after test", lookup.Pos(), "the entry is stored before (or without) the duplicate test")
 		}
 	}
-	if fold != nil && lookup != nil && foldPos < lookupPos {
-		c.ok("(*parser).parseMapping|case folding", fold.Pos(), "the key is lower-cased iff !"+csName+" before the duplicate test")
+	// the key that is tested: the scalar's text, lower-cased exactly when the mapping is not case-sensitive - written inline
+	// or in a helper that gets the flag
+	if foldedUnder(lookup.Index, cs, 0) {
+		c.ok("(*parser).parseMapping|case folding", lookup.Pos(), "the key is lower-cased iff !"+cs.Name()+" before the duplicate test")
 	} else {
-		c.bad("(*parser).parseMapping|case folding", loop.Pos(), "the key is not lower-cased under `!"+csName+"` before the duplicate test")
+		c.bad("(*parser).parseMapping|case folding", lookup.Pos(), "the key is not lower-cased under `!"+cs.Name()+"` before the duplicate test")
 	}
+}
+
+// foldedUnder: v is `x` when flag is true and strings.ToLower(x) when it is false: a join of the two made under a branch on
+// the flag, or the result of a helper of the module that is such a join of its own parameters.
+func foldedUnder(v ssa.Value, flag ssa.Value, depth int) bool {
+	if depth > 2 {
+		return false
+	}
+	switch x := v.(type) {
+	case *ssa.Phi:
+		if len(x.Edges) != 2 {
+			return false
+		}
+		for i := 0; i < 2; i++ {
+			low, raw := x.Edges[i], x.Edges[1-i]
+			call, ok := low.(*ssa.Call)
+			if !ok || calleeFullName(&call.Call) != "strings.ToLower" || call.Call.Args[0] != raw {
+				continue
+			}
+			// the lower-casing block is entered on the false outcome of the flag (or the true outcome of !flag)
+			for ifi, outcome := range controllingConds(call.Block()) {
+				if ifi.Cond == flag && !outcome {
+					return true
+				}
+				if u, ok := ifi.Cond.(*ssa.UnOp); ok && u.Op == token.NOT && u.X == flag && outcome {
+					return true
+				}
+			}
+		}
+	case *ssa.Call:
+		g := staticCallee(&x.Call)
+		if g == nil || !inModule(g) || g.Blocks == nil {
+			return false
+		}
+		fi := -1
+		for i, a := range x.Call.Args {
+			if a == flag {
+				fi = i
+			}
+		}
+		if fi < 0 || fi >= len(g.Params) {
+			return false
+		}
+		// every return of the helper is the raw parameter (flag true) or its lower-casing (flag false), or a join of both
+		okAll, n := true, 0
+		for _, b := range g.Blocks {
+			ret, isRet := b.Instrs[len(b.Instrs)-1].(*ssa.Return)
+			if !isRet || len(ret.Results) != 1 {
+				continue
+			}
+			n++
+			r := ret.Results[0]
+			if foldedUnder(r, g.Params[fi], depth+1) {
+				continue
+			}
+			conds := controllingConds(b)
+			side := func(want bool) bool {
+				for ifi, outcome := range conds {
+					if ifi.Cond == ssa.Value(g.Params[fi]) && outcome == want {
+						return true
+					}
+					if u, ok := ifi.Cond.(*ssa.UnOp); ok && u.Op == token.NOT && u.X == ssa.Value(g.Params[fi]) && outcome == !want {
+						return true
+					}
+				}
+				return false
+			}
+			if _, isParam := r.(*ssa.Parameter); isParam && side(true) {
+				continue
+			}
+			if call, isCall := r.(*ssa.Call); isCall && calleeFullName(&call.Call) == "strings.ToLower" {
+				if _, isParam := call.Call.Args[0].(*ssa.Parameter); isParam && (side(false) || !side(true) && returnsRawUnderFlag(g, g.Params[fi])) {
+					continue
+				}
+			}
+			okAll = false
+		}
+		return okAll && n > 0
+	}
+	return false
+}
+
+// returnsRawUnderFlag: some return of g, reached only when the flag is true, hands back a parameter unchanged (so the
+// remaining return, which lower-cases, is the flag-false case).
+func returnsRawUnderFlag(g *ssa.Function, flag *ssa.Parameter) bool {
+	for _, b := range g.Blocks {
+		ret, isRet := b.Instrs[len(b.Instrs)-1].(*ssa.Return)
+		if !isRet || len(ret.Results) != 1 {
+			continue
+		}
+		if _, isParam := ret.Results[0].(*ssa.Parameter); !isParam {
+			continue
+		}
+		for ifi, outcome := range controllingConds(b) {
+			if ifi.Cond == ssa.Value(flag) && outcome {
+				return true
+			}
+			if u, ok := ifi.Cond.(*ssa.UnOp); ok && u.Op == token.NOT && u.X == ssa.Value(flag) && !outcome {
+				return true
+			}
+		}
+	}
+	return false
 }
 
 // mandatoryKeys: domain table (GitHub workflow syntax): key, sibling keys identifying its section,
